@@ -18,6 +18,7 @@ where
 {
     let x = T::from_val(v)?;
     let enc = x.zvt_serialize();
+    let _g = refcodec::runaway::begin("decode of its own serialisation", crate::sut::key_of::<T>(), &enc);
     let dec = match T::zvt_deserialize(&enc) {
         Ok((y, rest)) => Ok((y == x, rest.len(), format!("{y:?}"))),
         Err(e) => Err(format!("{e:?}")),
